@@ -123,7 +123,9 @@ def main(tier, seed):
             # the narrow classes the URL type cannot represent: the observed text is the target with the base query kept /
             # the empty '#' dropped
             if row["rq"] and isinstance(got, str):
-                sig["observed_keeps_base_query_or_drops_empty_query"] = canon_text(got).replace("?q", "") == canon_text(want).replace("?", "", 1).replace("?q", "") or \
+                base_t = t(row["base"])
+                bq = ("?" + base_t.split("#")[0].split("?", 1)[1]) if "?" in base_t.split("#")[0] else "?\x00"
+                sig["observed_keeps_base_query_or_drops_empty_query"] = canon_text(got).replace(bq, "") == canon_text(want).replace("?", "", 1).replace(bq, "") or \
                     canon_text(got) == canon_text(want).replace("?", "", 1)
             if row["rf"] and isinstance(got, str):
                 sig["observed_drops_empty_fragment"] = canon_text(got) == canon_text(want)[:-1]
